@@ -1,97 +1,5 @@
 //! a10verif: property-based verification harness for a10 (see /verif/DESIGN.md).
 
-#![allow(dead_code, unused_imports)]
-
-mod abi;
-mod common;
-mod strat;
-mod interp;
-mod props;
-mod runner;
-mod sched;
-mod shims;
-mod sim;
-mod track;
-
-use std::path::Path;
-
-use common::Tier;
-use runner::Property;
-
-#[global_allocator]
-static ALLOC: track::Tracking = track::Tracking;
-
-/// One-time process set-up for workers and replays.
-pub fn init_process(with_sim: bool) {
-    runner::install_panic_hook();
-    track::register_static_image();
-    if with_sim {
-        sim::install();
-        interp::warmup();
-    }
-}
-
-macro_rules! dispatch {
-    ($id:expr, $f:ident $(, $arg:expr)*) => {
-        match $id {
-            "C01" => $f::<props::hist::C01>($($arg),*),
-            "C02" => $f::<props::hist::C02>($($arg),*),
-            "C03" => $f::<props::hist::C03>($($arg),*),
-            "C04" => $f::<props::c04::C04>($($arg),*),
-            "C17" => $f::<props::c17::C17>($($arg),*),
-            "C18" => $f::<props::c18::C18>($($arg),*),
-            "C16" => $f::<props::c16::C16>($($arg),*),
-            "C10" => $f::<props::c10::C10>($($arg),*),
-            "C15" => $f::<props::c15::C15>($($arg),*),
-            "C07" => $f::<props::c07::C07>($($arg),*),
-            "C08" => $f::<props::c08::C08>($($arg),*),
-            "C11" => $f::<props::c11::C11>($($arg),*),
-            "C12" => $f::<props::hist::C12>($($arg),*),
-            "C14" => $f::<props::c14::C14>($($arg),*),
-            "C06" => $f::<props::hist::C06>($($arg),*),
-            "C09" => $f::<props::hist::C09>($($arg),*),
-            "C05" => $f::<props::c05::C05>($($arg),*),
-            "C13" => $f::<props::c13::C13>($($arg),*),
-            other => {
-                eprintln!("unknown property {other}");
-                2
-            }
-        }
-    };
-}
-
-fn parent<P: Property>(tier: Tier) -> i32 {
-    runner::parent::<P>(tier)
-}
-fn worker<P: Property>(tier: Tier, seed: u64, shard: u32, of: u32, out: &Path) -> i32 {
-    runner::worker::<P>(tier, seed, shard, of, out)
-}
-fn replay<P: Property>(path: &Path) -> i32 {
-    runner::replay::<P>(path)
-}
-
 fn main() {
-    let args: Vec<String> = std::env::args().collect();
-    let code = match args.get(1).map(String::as_str) {
-        Some("run") if args.len() >= 4 => {
-            let Some(tier) = Tier::parse(&args[3]) else {
-                eprintln!("bad tier");
-                std::process::exit(2)
-            };
-            dispatch!(args[2].as_str(), parent, tier)
-        }
-        Some("worker") if args.len() >= 8 => {
-            let tier = Tier::parse(&args[3]).unwrap();
-            let shard: u32 = args[4].parse().unwrap();
-            let of: u32 = args[5].parse().unwrap();
-            let seed: u64 = args[6].parse().unwrap();
-            dispatch!(args[2].as_str(), worker, tier, seed, shard, of, Path::new(&args[7]))
-        }
-        Some("replay") if args.len() >= 4 => dispatch!(args[2].as_str(), replay, Path::new(&args[3])),
-        _ => {
-            eprintln!("usage: a10verif run <Cxx> <quick|thorough> | replay <Cxx> <file>");
-            2
-        }
-    };
-    std::process::exit(code);
+    a10verif::cli_main();
 }
